@@ -322,6 +322,29 @@ func streamC18(c *Ctx) {
 		if dj["g"] == "list" || dj["g"] == "map" || dj["g"] == "struct" || dj["g"] == "ptr" {
 			c.NonTrivial(fmt.Sprint(dj))
 		}
+		// pointers are transparent, at any depth: Normalize(&v), Normalize(&&v), Normalize(&&&v) are Normalize(v) (C18: "pointers dereferenced")
+		if v != nil {
+			pv := reflect.ValueOf(v)
+			for depthP := 1; depthP <= 3; depthP++ {
+				np := reflect.New(pv.Type())
+				np.Elem().Set(pv)
+				pv = np
+				resP, errP, panP := safeNormalize(pv.Interface())
+				gotP := "err"
+				if errP == nil {
+					gotP = "ok " + canonValue(resP)
+				}
+				if panP != "" {
+					gotP = "panic " + panP
+				}
+				if gotP != got {
+					c.Violation(&Replay{Stream: "norm", Case: []interface{}{line, J{"pointerDepth": depthP}}, Expected: []string{got}, Actual: []string{gotP},
+						Note: fmt.Sprintf("Normalize of a pointer chain of depth %d to the value differs from Normalize of the value", depthP)})
+					return
+				}
+			}
+			c.Count("pointer-transparency")
+		}
 		// idempotence on the implementation
 		if err == nil {
 			res2, err2, _ := safeNormalize(res)
